@@ -12,7 +12,6 @@ import (
 	"testing"
 
 	"github.com/golang/snappy"
-	"github.com/influxdata/influxdb/tsdb"
 	"verifkit"
 )
 
@@ -74,10 +73,10 @@ func FuzzVerifC13Values(f *testing.F) {
 // a sequence of the parser's domain, that sequence must round-trip through every encoder and
 // decoder (decode . encode . decode is a fixpoint).
 //
-// The fuzzed bytes are decoded with the stateless array decoders only. DecodeBlock takes its
-// decoders from a pool, and a BooleanDecoder keeps the error of a corrupt block forever (known
-// finding boolean-decoder-error-sticks-across-blocks, see TestVerifC13KFBooleanDecoderStickyError);
-// feeding corrupt blocks through it would poison the pool for the valid blocks checked afterwards.
+// The fuzzed bytes go through DecodeBlock, i.e. through the pooled iterator decoders.
+// (A BooleanDecoder used to keep the error of a corrupt block and poison the pool
+// for later valid blocks: repaired by 12220bd, regression test TestVerifC13KFBooleanDecoderStickyError.
+// If that defect returns, this target fails with decode-error on a freshly encoded block.)
 func FuzzVerifC13DecodeFixpoint(f *testing.F) {
 	for _, q := range []*vC13Seq{
 		{kind: 'f', ts: []int64{0, 10, 20, 35}, f: []float64{1, 1, 2.5, -0.0}},
@@ -97,37 +96,33 @@ func FuzzVerifC13DecodeFixpoint(f *testing.F) {
 		}
 		q := &vC13Seq{}
 		var err error
+		var vals []Value
 		func() {
 			defer func() {
 				if r := recover(); r != nil {
 					err = errPanicked
 				}
 			}()
-			switch blk[0] {
-			case BlockFloat64:
-				a := &tsdb.FloatArray{}
-				err = DecodeFloatArrayBlock(blk, a)
-				q.kind, q.ts, q.f = 'f', a.Timestamps, a.Values
-			case BlockInteger:
-				a := &tsdb.IntegerArray{}
-				err = DecodeIntegerArrayBlock(blk, a)
-				q.kind, q.ts, q.i = 'i', a.Timestamps, a.Values
-			case BlockUnsigned:
-				a := &tsdb.UnsignedArray{}
-				err = DecodeUnsignedArrayBlock(blk, a)
-				q.kind, q.ts, q.u = 'u', a.Timestamps, a.Values
-			case BlockBoolean:
-				a := &tsdb.BooleanArray{}
-				err = DecodeBooleanArrayBlock(blk, a)
-				q.kind, q.ts, q.b = 'b', a.Timestamps, a.Values
-			case BlockString:
-				a := &tsdb.StringArray{}
-				err = DecodeStringArrayBlock(blk, a)
-				q.kind, q.ts, q.s = 's', a.Timestamps, a.Values
-			default:
-				err = errPanicked
-			}
+			vals, err = DecodeBlock(blk, nil)
 		}()
+		if err != nil || len(vals) == 0 || len(vals) > 5000 {
+			return
+		}
+		for _, v := range vals {
+			q.ts = append(q.ts, v.UnixNano())
+			switch x := v.Value().(type) {
+			case float64:
+				q.kind, q.f = 'f', append(q.f, x)
+			case int64:
+				q.kind, q.i = 'i', append(q.i, x)
+			case uint64:
+				q.kind, q.u = 'u', append(q.u, x)
+			case bool:
+				q.kind, q.b = 'b', append(q.b, x)
+			case string:
+				q.kind, q.s = 's', append(q.s, x)
+			}
+		}
 		n := len(q.ts)
 		if err != nil || n == 0 || n > 5000 || len(q.f)+len(q.i)+len(q.u)+len(q.b)+len(q.s) != n {
 			return
